@@ -264,7 +264,7 @@ def __getattr__(tag_name: str) -> int:
     TagNotFoundError
         If tag does not exist.
     """
-    if tag_name not in _module_library.__dict__:
+    if tag_name not in _module_library.__dict__ or tag_name not in _module_library._tag_names:  # Only real tags
         raise TagNotFoundError(tag_name)
     else:
         return _module_library.__dict__[tag_name]
